@@ -161,6 +161,67 @@ impl C17 {
             // the trader-side equivalence does not carry over. The pool side does: each pool must end exactly where a single
             // exact-in swap leaves it whose input is what that pool's vault received in the two-hop.
             cov.eval(format!("{}|transfer_fee_world|ok={}", c.name(), two_hop_ok));
+            // a route refused because "the two legs' intermediate amounts do not match" although they do: carried from vault to
+            // vault, the intermediate token pays its transfer fee once. The same chain as single swap_v2's through the trader
+            // (whose accounts are funded on the copy): exact-in - leg one with the amount, leg two fed exactly what pool one's
+            // vault paid out (the same fee comes off on the way into pool two's vault); exact-out - leg two with the amount, leg
+            // one asked to deliver exactly what pool two's vault took in. If both fill completely, the amounts do match.
+            if !two_hop_ok && two_hop_code == Some(6051) && lg.v2 {
+                let fund = |f: &mut Ledger, k: &Pubkey| {
+                    if let Some(acc) = f.accts.get_mut(k) {
+                        if acc.data.len() >= 72 {
+                            let mut d = (*acc.data).clone();
+                            d[64..72].copy_from_slice(&(u64::MAX / 2).to_le_bytes());
+                            acc.data = std::rc::Rc::new(d);
+                        }
+                    }
+                };
+                let bal = |l: &Ledger, k: &Pubkey| token_amount(l, k) as i128;
+                let (u1_in, u1_out, v1_out) = if a.a_to_b_one { (lg.sa1.owner_a, lg.sa1.owner_b, lg.s1.vault_b) } else { (lg.sa1.owner_b, lg.sa1.owner_a, lg.s1.vault_a) };
+                let (u2_in, u2_out, v2_in) = if a.a_to_b_two { (lg.sa2.owner_a, lg.sa2.owner_b, lg.s2.vault_a) } else { (lg.sa2.owner_b, lg.sa2.owner_a, lg.s2.vault_b) };
+                if [u1_in, u1_out, u2_in, u2_out].iter().all(|k| *k != Pubkey::default()) && u1_in != u2_out {
+                    let mut f = pre.clone();
+                    for k in [u1_in, u2_in] {
+                        fund(&mut f, &k);
+                    }
+                    let matched: Option<String> = (|| {
+                        if a.is_input {
+                            let (i0, o0) = (bal(&f, &u1_in), bal(&f, &v1_out));
+                            let r1 = run(&mut f, ix::swap_v2(&lg.sa1, &SwapArgs { amount: a.amount, other_amount_threshold: 0, sqrt_price_limit: a.limit_one, amount_specified_is_input: true, a_to_b: a.a_to_b_one }, &[]));
+                            if !r1.ok || i0 - bal(&f, &u1_in) != a.amount as i128 {
+                                return None;
+                            }
+                            let g = u64::try_from(o0 - bal(&f, &v1_out)).ok().filter(|g| *g > 0)?;
+                            fund(&mut f, &u2_in);
+                            let i2 = bal(&f, &u2_in);
+                            let r2 = run(&mut f, ix::swap_v2(&lg.sa2, &SwapArgs { amount: g, other_amount_threshold: 0, sqrt_price_limit: a.limit_two, amount_specified_is_input: true, a_to_b: a.a_to_b_two }, &[]));
+                            if !r2.ok || i2 - bal(&f, &u2_in) != g as i128 {
+                                return None;
+                            }
+                            Some(format!("exact-in {}: leg one pays out {} and leg two, sent those {}, consumes them completely", a.amount, g, g))
+                        } else {
+                            let (o0, v0) = (bal(&f, &u2_out), bal(&f, &v2_in));
+                            let r2 = run(&mut f, ix::swap_v2(&lg.sa2, &SwapArgs { amount: a.amount, other_amount_threshold: u64::MAX, sqrt_price_limit: a.limit_two, amount_specified_is_input: false, a_to_b: a.a_to_b_two }, &[]));
+                            if !r2.ok || bal(&f, &u2_out) - o0 != a.amount as i128 {
+                                return None;
+                            }
+                            let in2 = u64::try_from(bal(&f, &v2_in) - v0).ok().filter(|g| *g > 0)?;
+                            fund(&mut f, &u1_in);
+                            let m0 = bal(&f, &u1_out);
+                            let r1 = run(&mut f, ix::swap_v2(&lg.sa1, &SwapArgs { amount: in2, other_amount_threshold: u64::MAX, sqrt_price_limit: a.limit_one, amount_specified_is_input: false, a_to_b: a.a_to_b_one }, &[]));
+                            if !r1.ok || bal(&f, &u1_out) - m0 != in2 as i128 {
+                                return None;
+                            }
+                            Some(format!("exact-out {}: pool two's vault takes in {} and leg one delivers exactly {} after the transfer fee", a.amount, in2, in2))
+                        }
+                    })();
+                    cov.probe("fee_world_mismatch_refusals_decomposed");
+                    if let Some(m) = matched {
+                        out.push(viol("rejected_without_reason", idx, format!("{} refused with IntermediateTokenAmountMismatch although the legs match as single swaps ({})", c.name(), m)));
+                        return;
+                    }
+                }
+            }
             if let (true, true, Some(post)) = (two_hop_ok, a.is_input, two_hop_post) {
                 let epoch = rt::with_ctx(|cx| cx.clock.epoch);
                 for (leg, sa, wk, pool, dir, lim) in [(1u8, &lg.sa1, lg.w1, &lg.s1, a.a_to_b_one, a.limit_one), (2u8, &lg.sa2, lg.w2, &lg.s2, a.a_to_b_two, a.limit_two)] {
